@@ -74,11 +74,64 @@ def import_aliases(body_owner: ast.AST, recursive: bool = False) -> dict:
                 out[a.asname or a.name.split(".")[0]] = a.name if a.asname else a.name.split(".")[0]
         elif isinstance(n, ast.ImportFrom):
             for a in n.names:
-                out[a.asname or a.name] = f"{n.module}.{a.name}"
+                out[a.asname or a.name] = f"{n.module}.{a.name}" if n.module else a.name
         elif isinstance(n, ast.If) and not recursive:
             # if TYPE_CHECKING: imports
             out.update(import_aliases(n))
     return out
+
+
+class FuncTable(dict):
+    """qualified name -> FuncInfo for the functions DEFINED in the package (iteration sees only those).  A look-up by
+    key additionally follows re-exports: `optyx.solvers.scipy_solver:_compute_bounds` resolves to the function of that
+    name which scipy_solver imports from another module of the package (a helper moved into a private module and imported
+    back keeps its old address for the rules)."""
+
+    prog = None
+
+    def _resolve(self, key):
+        if not isinstance(key, str) or ":" not in key or self.prog is None:
+            return None
+        mod, _, name = key.partition(":")
+        if "." in name:
+            return None
+        seen = set()
+        while mod in self.prog.modules and (mod, name) not in seen:
+            seen.add((mod, name))
+            target = self.prog.modules[mod].imports.get(name)
+            if not target or "." not in target:
+                return None
+            tmod, _, tname = target.rpartition(".")
+            cands = [tmod]
+            if not tmod.startswith("optyx"):
+                pkg = mod if mod in self.prog.packages else mod.rpartition(".")[0]
+                cands.append(f"{pkg}.{tmod}".strip("."))
+            for cm in cands:
+                k2 = f"{cm}:{tname}"
+                if dict.__contains__(self, k2):
+                    return dict.__getitem__(self, k2)
+            nxt = next((cm for cm in cands if cm in self.prog.modules), None)
+            if nxt is None:
+                return None
+            mod, name = nxt, tname
+        return None
+
+    def get(self, key, default=None):
+        if dict.__contains__(self, key):
+            return dict.__getitem__(self, key)
+        r = self._resolve(key)
+        return r if r is not None else default
+
+    def __contains__(self, key):
+        return dict.__contains__(self, key) or self._resolve(key) is not None
+
+    def __getitem__(self, key):
+        if dict.__contains__(self, key):
+            return dict.__getitem__(self, key)
+        r = self._resolve(key)
+        if r is None:
+            raise KeyError(key)
+        return r
 
 
 class Program:
@@ -87,7 +140,9 @@ class Program:
         self.overlay = overlay or {}
         self.modules: dict[str, Module] = {}
         self.classes: dict[str, ClassInfo] = {}
-        self.functions: dict[str, FuncInfo] = {}
+        self.functions: dict[str, FuncInfo] = FuncTable()
+        self.functions.prog = self
+        self.packages: set = set()
         self._load()
 
     # ------------------------------------------------------------------ loading
@@ -116,6 +171,7 @@ class Program:
             modname = rel[len("src/"):-3].replace("/", ".")
             if modname.endswith(".__init__"):
                 modname = modname[: -len(".__init__")]
+                self.packages.add(modname)
             m = Module(modname, rel, src, tree)
             m.imports = import_aliases(tree)
             self.modules[modname] = m
